@@ -434,6 +434,11 @@ class HostileServer:
                     "PASV": f"227 ok (127,0,0,1,{self.data_port >> 8},{self.data_port & 255})\r\n".encode(), "TYPE": b"200 ok\r\n",
                     "MLST": b"250-start\r\n Type=file;Size=3;Modify=20200101000000; f\r\n250 end\r\n", "QUIT": b"221 bye\r\n"}
             tgt = plan["target"]
+            if tgt == "blackhole":
+                # a well-formed passive-mode answer that names a port where connects are never answered
+                self.net.blackhole_ports.add(45999)
+                base["EPSV"] = b"229 ok (|||45999|)\r\n"
+                base["PASV"] = b"227 ok (127,0,0,1,179,175)\r\n"
             if tgt == "226":
                 base["226"] = b"226 done\r\n"
             if tgt in base:
@@ -531,7 +536,7 @@ async def client_side(net, hyg, plan):
     mon = {"client_calls": 0}
     hs = HostileServer(net, plan, rng)
     await hs.start()
-    c = aioftp.Client(path_io_factory=aioftp.MemoryPathIO, passive_commands=(plan["passive"],))
+    c = aioftp.Client(path_io_factory=aioftp.MemoryPathIO, passive_commands=(plan["passive"],), **(plan.get("client_kwargs") or {}))
     calls = []
 
     loop = asyncio.get_running_loop()
@@ -772,5 +777,12 @@ def gen_cases(tier, seed):
             for passive in ("epsv", "pasv"):
                 for ops in (["list_recursive"], ["list", "list_recursive", "list_raw"], ["list_raw", "list_recursive"]):
                     plans.append({"seed": seed, "target": "tree", "dots": dots, "no_mlsd": no_mlsd, "budget": 120, "passive": passive, "ops": ops})
+    # a passive-mode answer pointing at a port where connects are never answered, a client with connection_timeout: the call ends
+    # (by that time-out) instead of waiting for the operating system to give up
+    for passive in ("epsv", "pasv"):
+        for ops in (["list"], ["download"], ["stat", "list_raw"], ["list_recursive"]):
+            for ct in (1, 5):
+                plans.append({"seed": seed, "target": "blackhole", "budget": 40, "passive": passive, "ops": ops,
+                              "client_kwargs": {"connection_timeout": ct, "socket_timeout": ct}})
     cases += [{"kind": "client", "plans": plans[i:i + 25]} for i in range(0, len(plans), 25)]
     return cases
